@@ -86,8 +86,8 @@ class AsyncListener:
         self.last_message: Optional[DNSIncoming] = None
         self.transport: Optional[_WrappedTransport] = None
         self.sock_description: Optional[str] = None
-        self._deferred: Dict[str, List[DNSIncoming]] = {}
-        self._timers: Dict[str, asyncio.TimerHandle] = {}
+        self._deferred: Dict[Union[str, Tuple[str, int]], List[DNSIncoming]] = {}
+        self._timers: Dict[Union[str, Tuple[str, int]], asyncio.TimerHandle] = {}
         super().__init__()
 
     def datagram_received(
@@ -223,7 +223,10 @@ class AsyncListener:
             self._respond_query(msg, addr, port, transport, v6_flow_scope)
             return
 
-        deferred = self._deferred.setdefault(addr, [])
+        # The mDNS port and every legacy port of a host are queriers of their
+        # own: each has its own held packets and its own timer
+        key = addr if port == _MDNS_PORT else (addr, port)
+        deferred = self._deferred.setdefault(key, [])
         # If we get the same packet we ignore it
         for incoming in reversed(deferred):
             if incoming.data == msg.data:
@@ -232,12 +235,12 @@ class AsyncListener:
         delay = millis_to_seconds(random.randint(*_TC_DELAY_RANDOM_INTERVAL))
         loop = self.zc.loop
         assert loop is not None
-        self._cancel_any_timers_for_addr(addr)
-        self._timers[addr] = loop.call_at(
+        self._cancel_any_timers_for_addr(key)
+        self._timers[key] = loop.call_at(
             loop.time() + delay, self._respond_query, None, addr, port, transport, v6_flow_scope
         )
 
-    def _cancel_any_timers_for_addr(self, addr: _str) -> None:
+    def _cancel_any_timers_for_addr(self, addr: Union[_str, Tuple[_str, _int]]) -> None:
         """Cancel any future truncated packet timers for the address."""
         if addr in self._timers:
             self._timers.pop(addr).cancel()
@@ -251,14 +254,12 @@ class AsyncListener:
         v6_flow_scope: Union[Tuple[()], Tuple[int, int]],
     ) -> None:
         """Respond to a query and reassemble any truncated deferred packets."""
-        if msg is not None and port != _MDNS_PORT:
-            # A one-shot query from a legacy port is another querier on that
-            # host, it does not complete the truncated query that is held for
-            # the address and is answered on its own
-            self._query_handler.handle_assembled_query([msg], addr, port, transport, v6_flow_scope)
-            return
-        self._cancel_any_timers_for_addr(addr)
-        packets = self._deferred.pop(addr, [])
+        # A query from a legacy port is another querier on that host: it
+        # completes the truncated query that this very source sent before, if
+        # any, not the one that is held for the host's mDNS port
+        key = addr if port == _MDNS_PORT else (addr, port)
+        self._cancel_any_timers_for_addr(key)
+        packets = self._deferred.pop(key, [])
         if msg:
             packets.append(msg)
 
